@@ -450,6 +450,62 @@ def lossless_iter_rule(rep, prog, cfg):
                 rep.fail(rule, "%s/%s consumes inside a log statement: %s" % (cfg, root, ns[0].rsplit("::", 1)[-1]), b.loc(sp),
                          "%s calls %s inside the arguments of a logging macro: the value is consumed only when that log level is enabled, so the "
                          "decoded result depends on the logging configuration" % (root, ns[0]))
+    # list decoders: in a loop that takes items from the reply and appends to the result, no turn can go back for the next
+    # item without having appended (or left with an error): a `continue` / guard in between drops what the server sent
+    from ..cfg import Cfg, sccs
+    IT_NEXT = "core::iter::traits::iterator::Iterator::next"
+    n_loops = 0
+    for b in prog.bodies.values():
+        if b.crate != "mpd_client" or b.raw.get("derived"):
+            continue
+        rn = norm(prog.bodies.get(b.root, b).name)
+        if not (rn.startswith("mpd_client::responses::") or rn.endswith("as mpd_client::commands::Command>::response")) or " as core::iter::traits::" in rn:
+            continue
+        g = Cfg(b)
+        for loop in g.loops:
+            nexts = {bb for bb in loop if b.blocks[bb]["t"]["k"] == "call" and IT_NEXT in callee_names(b.blocks[bb]["t"])}
+            sinks = {bb for bb in loop if b.blocks[bb]["t"]["k"] == "call" and any(
+                n.rsplit("::", 1)[-1] in ("push", "insert", "push_back", "extend", "field") and ("Vec" in n or "HashMap" in n or "VecDeque" in n or "SongBuilder" in n)
+                for n in callee_names(b.blocks[bb]["t"]))}
+            if not nexts or not sinks:
+                continue
+            # an item may first be kept in a state variable that reaches the result on a later turn (`current_name = Some(value)`,
+            # `file = tag`, `songs = Some(..)`): storing into such a variable counts as using the item
+            fl = Flow(b)
+            item_derived = set()
+            for nb in nexts:
+                d, _u = fl.forward([b.blocks[nb]["t"]["dest"]["l"]], through_call=lambda t2, ai: True)
+                item_derived |= set(d)
+            reach_sink = set()
+            for sb in sinks:
+                for a in b.blocks[sb]["t"]["args"][1:]:
+                    if op_local(a) is not None:
+                        _l, vis = fl.sources([op_local(a)], through_call=lambda t2, k=None: tuple(range(6)), follow_mut=True)
+                        reach_sink |= vis
+            state = {l for l in reach_sink if b.locals[l]["name"]}
+            def_blocks = {}
+            for bb2, i2, st2 in b.stmts():
+                if st2["k"] == "assign":
+                    def_blocks.setdefault(st2["place"]["l"], set()).add(bb2)
+            for bb2, t2 in b.calls():
+                def_blocks.setdefault(t2["dest"]["l"], set()).add(bb2)
+
+            def carried(l, bb):
+                # a variable that lives across turns is a re-assigned `let mut` (an initialisation plus the store), unlike the
+                # pattern variable an item is bound to (one definition)
+                return len(def_blocks.get(l, ())) >= 2
+            for bb in loop:
+                for st in b.blocks[bb]["s"]:
+                    if st["k"] == "assign" and st["place"]["l"] in state and st["place"]["l"] in item_derived and carried(st["place"]["l"], bb):
+                        sinks.add(bb)
+                t = b.blocks[bb]["t"]
+                if t["k"] == "call" and t["dest"]["l"] in state and t["dest"]["l"] in item_derived and carried(t["dest"]["l"], bb):
+                    sinks.add(bb)
+            n_loops += 1
+            idle = [c for c in sccs(g.succs, set(loop) - sinks) if c & nexts]
+            rep.check(not idle, rule, "%s/%s every item taken is appended" % (cfg, rn), b.loc(b.blocks[min(loop)]["ts"]),
+                      "%s can take an item from the reply and go on to the next one without appending it to the result or returning an error" % rn)
+    rep.floor(rule, cfg + "/list-decoder loops", n_loops, 5)
     rep.count("calls_inside_log_statements_" + cfg, n_log)
     rep.check(not hits, rule, cfg + "/no dropping adapter in reply decoders", "responses/", "see above", detail={"bodies_in_scope": scope})
     rep.floor(rule, cfg + "/decoder bodies in scope", scope, 60, "responses/")
